@@ -329,6 +329,9 @@ struct Ctx<'a> {
     corr: bool,
     /// the tables are well-formed: the preservation oracles apply
     oracles: bool,
+    /// (oracle, font class, flags) of pass-through findings already reported: the first failing request of each is
+    /// recorded (they fire on nearly every request; the session keeps only 200 failures)
+    seen: &'a std::cell::RefCell<std::collections::BTreeSet<(String, String, u16)>>,
 }
 
 fn gdef_real_response(res: &Result<Result<Vec<u8>, klippa::SubsetError>, String>) -> Option<String> {
@@ -392,6 +395,9 @@ fn run_request(s: &mut Session, fc: &Ctx, req: &Req) {
         s.oracle("layout-subset-reopens", false, inp, || "FontRef::new failed".into());
         return;
     };
+    if fc.oracles {
+        passthrough_oracles(s, fc, req, &sub, &gmap, &gsub_kept);
+    }
     let coords = sample_coords(axis_count(&fc.font));
     let Some(og) = og else { return };
     if !fc.oracles {
@@ -1183,6 +1189,297 @@ fn syn_gdef_font(r: &mut Rng, id: u64) -> SynFont {
 }
 
 // ---------------------------------------------------------------------------------------------
+// synthetic fonts with hand-assembled GSUB / GPOS tables on top of a GDEF
+// ---------------------------------------------------------------------------------------------
+
+/// a lookup: type, flag, subtables, mark filtering set
+fn lookup_bytes(ty: u16, flag: u16, subtables: &[Vec<u8>], mark_set: Option<u16>) -> Vec<u8> {
+    let mut h = vec![];
+    p16(&mut h, ty);
+    p16(&mut h, flag | if mark_set.is_some() { 0x0010 } else { 0 });
+    p16(&mut h, subtables.len() as u16);
+    let mut slots = vec![];
+    for i in 0..subtables.len() {
+        slots.push(6 + 2 * i);
+        h.extend_from_slice(&[0; 2]);
+    }
+    if let Some(m) = mark_set {
+        p16(&mut h, m);
+    }
+    with_children(h, &slots, 2, subtables, false)
+}
+
+/// GSUB / GPOS version 1.0 with empty script and feature lists
+fn layout_table_bytes(lookups: &[Vec<u8>]) -> Vec<u8> {
+    let mut ll = vec![];
+    p16(&mut ll, lookups.len() as u16);
+    let mut slots = vec![];
+    for i in 0..lookups.len() {
+        slots.push(2 + 2 * i);
+        ll.extend_from_slice(&[0; 2]);
+    }
+    let ll = with_children(ll, &slots, 2, lookups, false);
+    let mut h = vec![0, 1, 0, 0, 0, 0, 0, 0, 0, 0];
+    let children = vec![vec![0, 0], vec![0, 0], ll];
+    h = with_children(h, &[4, 6, 8], 2, &children, false);
+    h
+}
+
+fn cov_of(gs: &[u16]) -> Vec<u8> {
+    cov_bytes(&CovS::F1(gs.to_vec()))
+}
+
+fn rand_gsub(r: &mut Rng, n: u16, nsets: usize) -> Vec<u8> {
+    let mut lookups = vec![];
+    for _ in 0..r.range(1, 5) {
+        let gs = {
+            let style = r.below(4);
+            rand_glyphs(r, n, style)
+        };
+        if gs.is_empty() {
+            continue;
+        }
+        let mark_set = if nsets > 0 && r.chance(1, 2) { Some(r.below(nsets as u64) as u16) } else { None };
+        let pick = |r: &mut Rng| r.below(n as u64) as u16;
+        let (ty, st) = match r.below(5) {
+            0 => {
+                // single format 1
+                let mut b = vec![0, 1, 0, 6];
+                p16(&mut b, r.range(1, 5) as u16);
+                b.extend_from_slice(&cov_of(&gs));
+                (1, b)
+            }
+            1 => {
+                let mut b = vec![0, 2, 0, 0];
+                p16(&mut b, gs.len() as u16);
+                for _ in &gs {
+                    let x = pick(r);
+                    p16(&mut b, x);
+                }
+                let off = b.len() as u16;
+                b[2..4].copy_from_slice(&off.to_be_bytes());
+                b.extend_from_slice(&cov_of(&gs));
+                (1, b)
+            }
+            2 | 3 => {
+                // multiple / alternate: coverage + sequences
+                let ty = if r.chance(1, 2) { 2 } else { 3 };
+                let mut h = vec![0, 1, 0, 0];
+                p16(&mut h, gs.len() as u16);
+                let mut slots = vec![2];
+                let mut children = vec![cov_of(&gs)];
+                for i in 0..gs.len() {
+                    slots.push(6 + 2 * i);
+                    h.extend_from_slice(&[0; 2]);
+                    let k = r.range(1, 3) as u16;
+                    let mut sq = vec![];
+                    p16(&mut sq, k);
+                    for _ in 0..k {
+                        let x = pick(r);
+                        p16(&mut sq, x);
+                    }
+                    children.push(sq);
+                }
+                (ty, with_children(h, &slots, 2, &children, false))
+            }
+            _ => {
+                // ligature
+                let mut h = vec![0, 1, 0, 0];
+                p16(&mut h, gs.len() as u16);
+                let mut slots = vec![2];
+                let mut children = vec![cov_of(&gs)];
+                for i in 0..gs.len() {
+                    slots.push(6 + 2 * i);
+                    h.extend_from_slice(&[0; 2]);
+                    let nl = r.range(1, 2) as usize;
+                    let mut sh = vec![];
+                    p16(&mut sh, nl as u16);
+                    let mut ss = vec![];
+                    let mut ligs = vec![];
+                    for j in 0..nl {
+                        ss.push(2 + 2 * j);
+                        sh.extend_from_slice(&[0; 2]);
+                        let mut l = vec![];
+                        let x = pick(r);
+                        p16(&mut l, x);
+                        let nc = r.range(2, 3) as u16;
+                        p16(&mut l, nc);
+                        for _ in 1..nc {
+                            let x = pick(r);
+                            p16(&mut l, x);
+                        }
+                        ligs.push(l);
+                    }
+                    children.push(with_children(sh, &ss, 2, &ligs, false));
+                }
+                (4, with_children(h, &slots, 2, &children, false))
+            }
+        };
+        lookups.push(lookup_bytes(ty, if r.chance(1, 3) { 0x0008 } else { 0 }, &[st], mark_set));
+    }
+    layout_table_bytes(&lookups)
+}
+
+/// a value record "x advance (+ VariationIndex device)": format 0x0004 or 0x0044
+fn rand_gpos(r: &mut Rng, n: u16, nsets: usize, store: Option<&StoreS>) -> Vec<u8> {
+    let mut lookups = vec![];
+    let var = |r: &mut Rng| -> Option<(u16, u16)> {
+        let st = store?;
+        if r.chance(1, 3) {
+            return None;
+        }
+        let o = r.below(st.subs.len() as u64) as usize;
+        Some((o as u16, r.below(st.subs[o].2.len() as u64) as u16))
+    };
+    for _ in 0..r.range(1, 4) {
+        let gs = {
+            let style = r.below(4);
+            rand_glyphs(r, n, style)
+        };
+        if gs.is_empty() {
+            continue;
+        }
+        let mark_set = if nsets > 0 && r.chance(1, 2) { Some(r.below(nsets as u64) as u16) } else { None };
+        let with_dev = store.is_some();
+        let vf: u16 = if with_dev { 0x0044 } else { 0x0004 };
+        // value records are written with a device slot to be patched: (bytes, device offsets to append)
+        let (ty, st) = match r.below(3) {
+            0 => {
+                // single pos format 2
+                let mut h = vec![0, 2, 0, 0];
+                p16(&mut h, vf);
+                p16(&mut h, gs.len() as u16);
+                let mut slots = vec![2];
+                let mut children = vec![cov_of(&gs)];
+                for _ in &gs {
+                    p16(&mut h, r.range(-200, 200) as i16 as u16);
+                    if with_dev {
+                        match var(r) {
+                            Some((o, i)) => {
+                                slots.push(h.len());
+                                h.extend_from_slice(&[0; 2]);
+                                let mut d = vec![];
+                                p16(&mut d, o);
+                                p16(&mut d, i);
+                                p16(&mut d, 0x8000);
+                                children.push(d);
+                            }
+                            None => h.extend_from_slice(&[0; 2]),
+                        }
+                    }
+                }
+                (1, with_children(h, &slots, 2, &children, false))
+            }
+            1 => {
+                // pair pos format 1, value format 1 = vf, value format 2 = 0
+                let mut h = vec![0, 1, 0, 0];
+                p16(&mut h, vf);
+                p16(&mut h, 0);
+                p16(&mut h, gs.len() as u16);
+                let mut slots = vec![2];
+                let mut children = vec![cov_of(&gs)];
+                for i in 0..gs.len() {
+                    slots.push(10 + 2 * i);
+                    h.extend_from_slice(&[0; 2]);
+                    let mut seconds: Vec<u16> = (0..r.range(1, 4)).map(|_| r.below(n as u64) as u16).collect();
+                    seconds.sort();
+                    seconds.dedup();
+                    let mut ps = vec![];
+                    p16(&mut ps, seconds.len() as u16);
+                    let mut pslots = vec![];
+                    let mut pch = vec![];
+                    for s2 in &seconds {
+                        p16(&mut ps, *s2);
+                        p16(&mut ps, r.range(-200, 200) as i16 as u16);
+                        if with_dev {
+                            match var(r) {
+                                Some((o, i)) => {
+                                    pslots.push(ps.len());
+                                    ps.extend_from_slice(&[0; 2]);
+                                    let mut d = vec![];
+                                    p16(&mut d, o);
+                                    p16(&mut d, i);
+                                    p16(&mut d, 0x8000);
+                                    pch.push(d);
+                                }
+                                None => ps.extend_from_slice(&[0; 2]),
+                            }
+                        }
+                    }
+                    children.push(with_children(ps, &pslots, 2, &pch, false));
+                }
+                (2, with_children(h, &slots, 2, &children, false))
+            }
+            _ => {
+                // pair pos format 2: classes 0..2 x 0..2, plain x advance
+                let cd1 = rand_cd(r, n, 2, 0);
+                let cd2 = rand_cd(r, n, 2, 0);
+                let mut h = vec![0, 2, 0, 0];
+                p16(&mut h, 0x0004);
+                p16(&mut h, 0);
+                h.extend_from_slice(&[0; 4]);
+                p16(&mut h, 3);
+                p16(&mut h, 3);
+                for _ in 0..9 {
+                    p16(&mut h, r.range(-200, 200) as i16 as u16);
+                }
+                (2, with_children(h, &[2, 8, 10], 2, &[cov_of(&gs), cd_bytes(&cd1), cd_bytes(&cd2)], false))
+            }
+        };
+        lookups.push(lookup_bytes(ty, 0, &[st], mark_set));
+    }
+    layout_table_bytes(&lookups)
+}
+
+fn syn_layout_font(r: &mut Rng, id: u64) -> SynFont {
+    let n = *r.pick(&[20u16, 45, 90]);
+    let minor = *r.pick(&[2u16, 3, 3]);
+    let mut g = GdefS { minor, share: r.chance(1, 2), ..Default::default() };
+    g.glyph_class = Some(rand_cd(r, n, 4, 0));
+    if minor >= 3 {
+        g.store = Some(rand_store(r));
+    }
+    // ligature carets that use some rows of the store
+    {
+        let cov = rand_cov(r, n, 0);
+        let cnt = cov_glyphs(&cov).len();
+        let st = g.store.clone();
+        let ligs = (0..cnt)
+            .map(|_| {
+                (0..r.range(1, 2))
+                    .map(|_| match &st {
+                        Some(st) if r.chance(1, 2) => {
+                            let o = r.below(st.subs.len() as u64) as usize;
+                            CaretS::F3Var(r.range(0, 900) as i16, o as u16, r.below(st.subs[o].2.len() as u64) as u16)
+                        }
+                        _ => CaretS::F1(r.range(0, 900) as i16),
+                    })
+                    .collect()
+            })
+            .collect();
+        g.lig = Some((cov, ligs));
+    }
+    let nsets = r.range(2, 4) as usize;
+    g.mark_sets = Some(
+        (0..nsets)
+            .map(|_| {
+                if r.chance(1, 3) {
+                    CovS::F1(vec![r.below(n as u64) as u16])
+                } else {
+                    rand_cov(r, n, 0)
+                }
+            })
+            .collect(),
+    );
+    let mut extra = vec![(*b"GDEF", gdef_bytes(&g)), (*b"GSUB", rand_gsub(r, n, nsets)), (*b"GPOS", rand_gpos(r, n, nsets, g.store.as_ref()))];
+    if let Some(st) = &g.store {
+        extra.push((*b"fvar", fvar_bytes(st.axis_count)));
+    }
+    let label = format!("syn:lay#{id}");
+    SynFont { data: syn_base(&label, n as usize, extra), label, wf: true, n }
+}
+
+// ---------------------------------------------------------------------------------------------
 // unit level: CoverageTable / ClassDef subset + serialize through the hooks
 // ---------------------------------------------------------------------------------------------
 
@@ -1536,6 +1833,527 @@ fn unit_classdef(s: &mut Session, r: &mut Rng, count: usize) {
     }
 }
 
+// ---------------------------------------------------------------------------------------------
+// GSUB / GPOS (passed through by klippa): a tiny interpreter over read-fonts tables + oracles
+// ---------------------------------------------------------------------------------------------
+
+use read_fonts::tables::gpos::{AnchorTable, Gpos, PairPos, PositionSubtables, SinglePos, ValueRecord};
+use read_fonts::tables::gsub::{Gsub, SingleSubst, SubstitutionSubtables};
+use read_fonts::tables::variations::DeltaSetIndex;
+
+/// apply GSUB lookup `li` (types 1-4) to an exact input sequence; `None` = no subtable applies
+fn gsub_apply(gsub: &Gsub, li: usize, seq: &[u32]) -> Option<Vec<u32>> {
+    let lookup = gsub.lookup_list().ok()?.lookups().get(li).ok()?;
+    let first = GlyphId::new(*seq.first()?);
+    match lookup.subtables().ok()? {
+        SubstitutionSubtables::Single(subs) => {
+            if seq.len() != 1 {
+                return None;
+            }
+            for st in subs.iter() {
+                match st.ok()? {
+                    SingleSubst::Format1(t) => {
+                        if t.coverage().ok()?.get(first).is_some() {
+                            return Some(vec![(seq[0] as i32 + t.delta_glyph_id() as i32) as u16 as u32]);
+                        }
+                    }
+                    SingleSubst::Format2(t) => {
+                        if let Some(i) = t.coverage().ok()?.get(first) {
+                            return t.substitute_glyph_ids().get(i as usize).map(|g| vec![g.get().to_u32()]);
+                        }
+                    }
+                }
+            }
+            None
+        }
+        SubstitutionSubtables::Multiple(subs) => {
+            if seq.len() != 1 {
+                return None;
+            }
+            for st in subs.iter() {
+                let t = st.ok()?;
+                if let Some(i) = t.coverage().ok()?.get(first) {
+                    let sq = t.sequences().get(i as usize).ok()?;
+                    return Some(sq.substitute_glyph_ids().iter().map(|g| g.get().to_u32()).collect());
+                }
+            }
+            None
+        }
+        SubstitutionSubtables::Alternate(subs) => {
+            if seq.len() != 1 {
+                return None;
+            }
+            for st in subs.iter() {
+                let t = st.ok()?;
+                if let Some(i) = t.coverage().ok()?.get(first) {
+                    let a = t.alternate_sets().get(i as usize).ok()?;
+                    return Some(a.alternate_glyph_ids().iter().map(|g| g.get().to_u32()).collect());
+                }
+            }
+            None
+        }
+        SubstitutionSubtables::Ligature(subs) => {
+            for st in subs.iter() {
+                let t = st.ok()?;
+                if let Some(i) = t.coverage().ok()?.get(first) {
+                    let set = t.ligature_sets().get(i as usize).ok()?;
+                    for lig in set.ligatures().iter() {
+                        let lig = lig.ok()?;
+                        let comps: Vec<u32> = lig.component_glyph_ids().iter().map(|g| g.get().to_u32()).collect();
+                        if comps[..] == seq[1..] {
+                            return Some(vec![lig.ligature_glyph().to_u32()]);
+                        }
+                    }
+                    return None;
+                }
+            }
+            None
+        }
+        _ => None,
+    }
+}
+
+/// the input sequences the lookup has rules for (types 1-4), at most `cap`
+fn gsub_inputs(gsub: &Gsub, li: usize, cap: usize) -> Vec<Vec<u32>> {
+    let mut out = vec![];
+    let Some(lookup) = gsub.lookup_list().ok().and_then(|l| l.lookups().get(li).ok()) else { return out };
+    let Ok(subs) = lookup.subtables() else { return out };
+    match subs {
+        SubstitutionSubtables::Single(subs) => {
+            for st in subs.iter().flatten() {
+                let cov = match &st {
+                    SingleSubst::Format1(t) => t.coverage(),
+                    SingleSubst::Format2(t) => t.coverage(),
+                };
+                if let Ok(c) = cov {
+                    out.extend(c.iter().take(cap).map(|g| vec![g.to_u32()]));
+                }
+            }
+        }
+        SubstitutionSubtables::Multiple(subs) => {
+            for t in subs.iter().flatten() {
+                if let Ok(c) = t.coverage() {
+                    out.extend(c.iter().take(cap).map(|g| vec![g.to_u32()]));
+                }
+            }
+        }
+        SubstitutionSubtables::Alternate(subs) => {
+            for t in subs.iter().flatten() {
+                if let Ok(c) = t.coverage() {
+                    out.extend(c.iter().take(cap).map(|g| vec![g.to_u32()]));
+                }
+            }
+        }
+        SubstitutionSubtables::Ligature(subs) => {
+            for t in subs.iter().flatten() {
+                let Ok(c) = t.coverage() else { continue };
+                for (i, g) in c.iter().enumerate().take(cap) {
+                    let Ok(set) = t.ligature_sets().get(i) else { continue };
+                    for lig in set.ligatures().iter().flatten() {
+                        let mut sq = vec![g.to_u32()];
+                        sq.extend(lig.component_glyph_ids().iter().map(|g| g.get().to_u32()));
+                        out.push(sq);
+                    }
+                }
+            }
+        }
+        _ => {}
+    }
+    out.truncate(cap);
+    out
+}
+
+fn vr_str(v: &ValueRecord) -> String {
+    format!("{:?},{:?},{:?},{:?}", v.x_placement(), v.y_placement(), v.x_advance(), v.y_advance())
+}
+
+/// the adjustment GPOS lookup `li` (SinglePos / PairPos) gives `g1` (`g2` = None) or the pair
+fn gpos_value(gpos: &Gpos, li: usize, g1: u32, g2: Option<u32>) -> Option<String> {
+    let lookup = gpos.lookup_list().ok()?.lookups().get(li).ok()?;
+    let gg1 = GlyphId::new(g1);
+    match lookup.subtables().ok()? {
+        PositionSubtables::Single(subs) => {
+            for st in subs.iter() {
+                match st.ok()? {
+                    SinglePos::Format1(t) => {
+                        if t.coverage().ok()?.get(gg1).is_some() {
+                            return Some(vr_str(&t.value_record()));
+                        }
+                    }
+                    SinglePos::Format2(t) => {
+                        if let Some(i) = t.coverage().ok()?.get(gg1) {
+                            return t.value_records().get(i as usize).ok().map(|v| vr_str(&v));
+                        }
+                    }
+                }
+            }
+            None
+        }
+        PositionSubtables::Pair(subs) => {
+            let g2 = g2?;
+            for st in subs.iter() {
+                match st.ok()? {
+                    PairPos::Format1(t) => {
+                        if let Some(i) = t.coverage().ok()?.get(gg1) {
+                            let set = t.pair_sets().get(i as usize).ok()?;
+                            for r in set.pair_value_records().iter() {
+                                let r = r.ok()?;
+                                if r.second_glyph().to_u32() == g2 {
+                                    return Some(format!("{}|{}", vr_str(r.value_record1()), vr_str(r.value_record2())));
+                                }
+                            }
+                            return None;
+                        }
+                    }
+                    PairPos::Format2(t) => {
+                        if t.coverage().ok()?.get(gg1).is_some() {
+                            if g1 > 0xFFFF || g2 > 0xFFFF {
+                                return None;
+                            }
+                            let c1 = t.class_def1().ok()?.get(GlyphId16::new(g1 as u16));
+                            let c2 = t.class_def2().ok()?.get(GlyphId16::new(g2 as u16));
+                            let r1 = t.class1_records().get(c1 as usize).ok()?;
+                            let r2 = r1.class2_records().get(c2 as usize).ok()?;
+                            return Some(format!("{}|{}", vr_str(r2.value_record1()), vr_str(r2.value_record2())));
+                        }
+                    }
+                }
+            }
+            None
+        }
+        _ => None,
+    }
+}
+
+/// test inputs for `gpos_value`
+fn gpos_inputs(gpos: &Gpos, li: usize, cap: usize) -> Vec<(u32, Option<u32>)> {
+    let mut out = vec![];
+    let Some(lookup) = gpos.lookup_list().ok().and_then(|l| l.lookups().get(li).ok()) else { return out };
+    let Ok(subs) = lookup.subtables() else { return out };
+    match subs {
+        PositionSubtables::Single(subs) => {
+            for st in subs.iter().flatten() {
+                let cov = match &st {
+                    SinglePos::Format1(t) => t.coverage(),
+                    SinglePos::Format2(t) => t.coverage(),
+                };
+                if let Ok(c) = cov {
+                    out.extend(c.iter().take(cap).map(|g| (g.to_u32(), None)));
+                }
+            }
+        }
+        PositionSubtables::Pair(subs) => {
+            for st in subs.iter().flatten() {
+                match st {
+                    PairPos::Format1(t) => {
+                        let Ok(c) = t.coverage() else { continue };
+                        for (i, g) in c.iter().enumerate().take(cap) {
+                            let Ok(set) = t.pair_sets().get(i) else { continue };
+                            for r in set.pair_value_records().iter().flatten().take(8) {
+                                out.push((g.to_u32(), Some(r.second_glyph().to_u32())));
+                            }
+                        }
+                    }
+                    PairPos::Format2(t) => {
+                        let Ok(c) = t.coverage() else { continue };
+                        let seconds: Vec<u32> = t.class_def2().map(|cd| cd.iter().map(|p| p.0.to_u32()).step_by(7).take(12).collect()).unwrap_or_default();
+                        for g in c.iter().take(cap / 4 + 1) {
+                            for s2 in &seconds {
+                                out.push((g.to_u32(), Some(*s2)));
+                            }
+                        }
+                    }
+                }
+            }
+        }
+        _ => {}
+    }
+    out.truncate(cap);
+    out
+}
+
+/// the variation indices GPOS uses for glyphs of `kept` (value record devices of SinglePos / PairPos whose first glyph is
+/// kept, anchors of kept marks / bases / ligatures / cursive glyphs)
+fn gpos_var_indices(gpos: &Gpos, kept: &dyn Fn(u32) -> bool) -> Vec<(u16, u16)> {
+    let mut out: Vec<(u16, u16)> = vec![];
+    let mut dev = |d: Option<Result<DeviceOrVariationIndex, ReadError>>| {
+        if let Some(Ok(DeviceOrVariationIndex::VariationIndex(v))) = d {
+            out.push((v.delta_set_outer_index(), v.delta_set_inner_index()));
+        }
+    };
+    let Ok(ll) = gpos.lookup_list() else { return out };
+    for lookup in ll.lookups().iter().flatten() {
+        let Ok(subs) = lookup.subtables() else { continue };
+        match subs {
+            PositionSubtables::Single(subs) => {
+                for st in subs.iter().flatten() {
+                    match st {
+                        SinglePos::Format1(t) => {
+                            if t.coverage().map(|c| c.iter().any(|g| kept(g.to_u32()))).unwrap_or(false) {
+                                let v = t.value_record();
+                                let d = t.offset_data();
+                                dev(v.x_placement_device(d));
+                                dev(v.y_placement_device(d));
+                                dev(v.x_advance_device(d));
+                                dev(v.y_advance_device(d));
+                            }
+                        }
+                        SinglePos::Format2(t) => {
+                            let Ok(c) = t.coverage() else { continue };
+                            for (i, g) in c.iter().enumerate() {
+                                if !kept(g.to_u32()) {
+                                    continue;
+                                }
+                                if let Ok(v) = t.value_records().get(i) {
+                                    let d = t.offset_data();
+                                    dev(v.x_placement_device(d));
+                                    dev(v.y_placement_device(d));
+                                    dev(v.x_advance_device(d));
+                                    dev(v.y_advance_device(d));
+                                }
+                            }
+                        }
+                    }
+                }
+            }
+            PositionSubtables::Pair(subs) => {
+                for st in subs.iter().flatten() {
+                    match st {
+                        PairPos::Format1(t) => {
+                            let Ok(c) = t.coverage() else { continue };
+                            for (i, g) in c.iter().enumerate() {
+                                if !kept(g.to_u32()) {
+                                    continue;
+                                }
+                                let Ok(set) = t.pair_sets().get(i) else { continue };
+                                for r in set.pair_value_records().iter().flatten() {
+                                    if !kept(r.second_glyph().to_u32()) {
+                                        continue;
+                                    }
+                                    let d = set.offset_data();
+                                    for v in [r.value_record1(), r.value_record2()] {
+                                        dev(v.x_placement_device(d));
+                                        dev(v.y_placement_device(d));
+                                        dev(v.x_advance_device(d));
+                                        dev(v.y_advance_device(d));
+                                    }
+                                }
+                            }
+                        }
+                        PairPos::Format2(t) => {
+                            let (Ok(c), Ok(cd1), Ok(cd2)) = (t.coverage(), t.class_def1(), t.class_def2()) else { continue };
+                            let c1s: std::collections::BTreeSet<u16> = c.iter().filter(|g| kept(g.to_u32())).map(|g| cd1.get(g)).collect();
+                            let mut c2s: std::collections::BTreeSet<u16> = cd2.iter().filter(|p| kept(p.0.to_u32())).map(|p| p.1).collect();
+                            c2s.insert(0);
+                            for c1 in &c1s {
+                                let Ok(r1) = t.class1_records().get(*c1 as usize) else { continue };
+                                for c2 in &c2s {
+                                    let Ok(r2) = r1.class2_records().get(*c2 as usize) else { continue };
+                                    let d = t.offset_data();
+                                    for v in [r2.value_record1(), r2.value_record2()] {
+                                        dev(v.x_placement_device(d));
+                                        dev(v.y_placement_device(d));
+                                        dev(v.x_advance_device(d));
+                                        dev(v.y_advance_device(d));
+                                    }
+                                }
+                            }
+                        }
+                    }
+                }
+            }
+            PositionSubtables::MarkToBase(subs) => {
+                for t in subs.iter().flatten() {
+                    let mut anchor = |a: Result<AnchorTable, ReadError>| {
+                        if let Ok(AnchorTable::Format3(a)) = a {
+                            dev(a.x_device());
+                            dev(a.y_device());
+                        }
+                    };
+                    if let (Ok(mc), Ok(ma)) = (t.mark_coverage(), t.mark_array()) {
+                        for (i, g) in mc.iter().enumerate() {
+                            if kept(g.to_u32()) {
+                                if let Some(r) = ma.mark_records().get(i) {
+                                    anchor(r.mark_anchor(ma.offset_data()));
+                                }
+                            }
+                        }
+                    }
+                    if let (Ok(bc), Ok(ba)) = (t.base_coverage(), t.base_array()) {
+                        for (i, g) in bc.iter().enumerate() {
+                            if kept(g.to_u32()) {
+                                if let Ok(r) = ba.base_records().get(i) {
+                                    for a in r.base_anchors(ba.offset_data()).iter().flatten() {
+                                        anchor(a);
+                                    }
+                                }
+                            }
+                        }
+                    }
+                }
+            }
+            _ => {}
+        }
+    }
+    out.sort();
+    out.dedup();
+    out
+}
+
+fn store_deltas(gdef: Option<&Gdef>, ix: (u16, u16), coords: &[Vec<F2Dot14>]) -> Vec<String> {
+    match gdef.and_then(|g| g.item_var_store()) {
+        Some(Ok(store)) => coords
+            .iter()
+            .map(|c| match store.compute_delta(DeltaSetIndex { outer: ix.0, inner: ix.1 }, c) {
+                Ok(d) => d.to_string(),
+                Err(_) => "err".into(),
+            })
+            .collect(),
+        Some(Err(_)) => coords.iter().map(|_| "store-err".to_string()).collect(),
+        // without a store every delta is zero
+        None => coords.iter().map(|_| "0".to_string()).collect(),
+    }
+}
+
+/// members of mark glyph set `k` among `glyphs`
+fn set_members(gdef: Option<&Gdef>, k: u16, glyphs: &[u32]) -> Vec<usize> {
+    let cov = match gdef.and_then(|g| g.mark_glyph_sets_def()) {
+        Some(Ok(m)) => m.coverages().get(k as usize).ok(),
+        _ => None,
+    };
+    match cov {
+        Some(c) => glyphs.iter().enumerate().filter(|(_, g)| c.get(GlyphId::new(**g)).is_some()).map(|(i, _)| i).collect(),
+        None => vec![],
+    }
+}
+
+/// oracles on the GSUB / GPOS tables of the subset (klippa copies both verbatim)
+fn passthrough_oracles(s: &mut Session, fc: &Ctx, req: &Req, sub: &FontRef, gmap: &std::collections::BTreeMap<u32, u32>, gsub_kept: &[(u32, u32)]) {
+    let inp = || input_str(&fc.label, req);
+    let m = |g: u32| gmap.get(&g).copied();
+    let class: String = fc.label.split('#').next().unwrap_or("").to_string();
+    // record a failing pass-through finding once per (oracle, font class, flags)
+    let mut finding = |s: &mut Session, name: &str, bad: &Option<String>| {
+        if bad.is_some() && !fc.seen.borrow_mut().insert((name.to_string(), class.clone(), req.flags)) {
+            s.count(&format!("passthrough:repeat:{name}"));
+            return;
+        }
+        s.oracle(name, bad.is_none(), inp, || bad.clone().unwrap_or_default());
+    };
+    // ---- byte identity (what the model says: passthrough_table)
+    for tag in [b"GSUB", b"GPOS"] {
+        if let Some(o) = table(&fc.font, tag) {
+            let name = format!("{}-passed-through-verbatim", String::from_utf8_lossy(tag).to_lowercase());
+            s.oracle(&name, table(sub, tag) == Some(o), inp, || "table bytes differ".into());
+        }
+    }
+    // ---- GSUB types 1-4
+    if let (Ok(og), Ok(sg)) = (fc.font.gsub(), sub.gsub()) {
+        let n = og.lookup_list().map(|l| l.lookup_count() as usize).unwrap_or(0);
+        let mut bad: Option<String> = None;
+        let mut tested = 0;
+        for li in 0..n.min(60) {
+            for sq in gsub_inputs(&og, li, 40) {
+                let Some(want) = gsub_apply(&og, li, &sq) else { continue };
+                let (Some(msq), Some(mwant)) = (sq.iter().map(|g| m(*g)).collect::<Option<Vec<u32>>>(), want.iter().map(|g| m(*g)).collect::<Option<Vec<u32>>>()) else { continue };
+                tested += 1;
+                let got = gsub_apply(&sg, li, &msq);
+                if got.as_ref() != Some(&mwant) && bad.is_none() {
+                    bad = Some(format!("lookup {li}: original {sq:?} -> {want:?}; renumbered input {msq:?} must give {mwant:?}, the subset's lookup gives {got:?}"));
+                }
+            }
+        }
+        if tested > 0 {
+            s.count("passthrough:gsub-tested");
+            finding(s, "gsub-lookups-consistent-with-renumbering", &bad);
+        }
+    }
+    // ---- GPOS single / pair values
+    if let (Ok(og), Ok(sg)) = (fc.font.gpos(), sub.gpos()) {
+        let n = og.lookup_list().map(|l| l.lookup_count() as usize).unwrap_or(0);
+        let mut bad: Option<String> = None;
+        let mut tested = 0;
+        for li in 0..n.min(60) {
+            for (g1, g2) in gpos_inputs(&og, li, 60) {
+                let Some(want) = gpos_value(&og, li, g1, g2) else { continue };
+                let Some(n1) = m(g1) else { continue };
+                let n2 = match g2 {
+                    Some(g2) => match m(g2) {
+                        Some(x) => Some(x),
+                        None => continue,
+                    },
+                    None => None,
+                };
+                tested += 1;
+                let got = gpos_value(&sg, li, n1, n2);
+                if got.as_ref() != Some(&want) && bad.is_none() {
+                    bad = Some(format!("lookup {li}: original ({g1},{g2:?}) -> {want}; renumbered ({n1},{n2:?}) gives {got:?}"));
+                }
+            }
+        }
+        if tested > 0 {
+            s.count("passthrough:gpos-tested");
+            finding(s, "gpos-pair-adjustments-preserved", &bad);
+        }
+        // ---- variation indices of GPOS against the (subset) GDEF store
+        let kept = |g: u32| gmap.contains_key(&g);
+        let vis = gpos_var_indices(&og, &kept);
+        if !vis.is_empty() {
+            s.count("passthrough:gpos-varidx-fonts");
+            let coords = sample_coords(axis_count(&fc.font));
+            let ogd = fc.font.gdef().ok();
+            let sgd = sub.gdef().ok();
+            let mut bad: Option<String> = None;
+            for ix in vis.iter().take(400) {
+                let want = store_deltas(ogd.as_ref(), *ix, &coords);
+                let got = store_deltas(sgd.as_ref(), *ix, &coords);
+                if want != got {
+                    bad = Some(format!("VariationIndex {ix:?}: original deltas {want:?}, through the subset's GDEF store {got:?}"));
+                    break;
+                }
+            }
+            finding(s, "gpos-variation-indices-resolve-equal", &bad);
+        }
+    }
+    // ---- mark filtering sets of the copied lookups against the re-indexed GDEF sets
+    {
+        let olds: Vec<u32> = gsub_kept.iter().map(|p| p.0).collect();
+        let news: Vec<u32> = gsub_kept.iter().map(|p| p.1).collect();
+        let ogd = fc.font.gdef().ok();
+        let sgd = sub.gdef().ok();
+        let mut sets: Vec<u16> = vec![];
+        if let Ok(g) = sub.gsub() {
+            if let Ok(ll) = g.lookup_list() {
+                sets.extend(ll.lookups().iter().flatten().filter_map(|l| l.mark_filtering_set()));
+            }
+        }
+        if let Ok(g) = sub.gpos() {
+            if let Ok(ll) = g.lookup_list() {
+                sets.extend(ll.lookups().iter().flatten().filter_map(|l| l.mark_filtering_set()));
+            }
+        }
+        sets.sort();
+        sets.dedup();
+        if !sets.is_empty() && ogd.as_ref().map(gdef_marksets_wellformed).unwrap_or(true) {
+            s.count("passthrough:markfilter-fonts");
+            let mut bad: Option<String> = None;
+            for k in sets {
+                let want = set_members(ogd.as_ref(), k, &olds);
+                let got = set_members(sgd.as_ref(), k, &news);
+                if want != got {
+                    bad = Some(format!(
+                        "a lookup filters marks by set {k}: kept members in the original {:?}, members of the subset's set {k} {:?}",
+                        want.iter().map(|i| olds[*i]).collect::<Vec<_>>(),
+                        got.iter().map(|i| news[*i]).collect::<Vec<_>>()
+                    ));
+                    break;
+                }
+            }
+            finding(s, "mark-filtering-sets-consistent", &bad);
+        }
+    }
+}
+
 fn corpus_fonts() -> Vec<(String, Vec<u8>)> {
     let mut out = vec![];
     for dir in ["/repo/font-test-data/test_data/ttf", "/repo/klippa/test-data/fonts"] {
@@ -1588,6 +2406,7 @@ fn rand_request(r: &mut Rng, n: u32, cps: &[u32]) -> Req {
 
 pub fn run(cfg: &Config, s: &mut Session, r: &mut Rng) {
     let th = cfg.thorough();
+    let seen = std::cell::RefCell::new(std::collections::BTreeSet::new());
     let _ = FontData::new(&[]);
     unit_coverage(s, r, if th { 6000 } else { 600 });
     unit_classdef(s, r, if th { 6000 } else { 600 });
@@ -1596,8 +2415,20 @@ pub fn run(cfg: &Config, s: &mut Session, r: &mut Rng) {
         let sf = syn_gdef_font(r, id);
         let Ok(font) = FontRef::new(&sf.data) else { continue };
         let cps: Vec<u32> = (1..sf.n as u32).map(|g| 0x100 + g).collect();
-        let fc = Ctx { label: sf.label.clone(), font, corr: true, oracles: sf.wf };
+        let fc = Ctx { label: sf.label.clone(), font, corr: true, oracles: sf.wf, seen: &seen };
         s.count(if sf.wf { "syn:well-formed" } else { "syn:hostile" });
+        for _ in 0..(if th { 8 } else { 4 }) {
+            let req = rand_request(r, sf.n as u32, &cps);
+            run_request(s, &fc, &req);
+        }
+        run_request(s, &fc, &Req { gids: (0..sf.n as u32).collect(), unicodes: vec![], flags: 0 });
+    }
+    for id in 0..(if th { 200 } else { 30 }) {
+        let sf = syn_layout_font(r, id);
+        let Ok(font) = FontRef::new(&sf.data) else { continue };
+        let cps: Vec<u32> = (1..sf.n as u32).map(|g| 0x100 + g).collect();
+        let fc = Ctx { label: sf.label.clone(), font, corr: true, oracles: true, seen: &seen };
+        s.count("syn:layout-font");
         for _ in 0..(if th { 8 } else { 4 }) {
             let req = rand_request(r, sf.n as u32, &cps);
             run_request(s, &fc, &req);
@@ -1611,7 +2442,10 @@ pub fn run(cfg: &Config, s: &mut Session, r: &mut Rng) {
             continue;
         }
         let cps: Vec<u32> = super::cmap_pairs(&font).iter().map(|p| p.0).collect();
-        let fc = Ctx { label, font, corr: true, oracles: true };
+        if font.gsub().is_ok() || font.gpos().is_ok() {
+            s.count(&format!("corpus-with-gsub-gpos:{}", label));
+        }
+        let fc = Ctx { label, font, corr: true, oracles: true, seen: &seen };
         let nreq = if th { 40 } else { 6 };
         for _ in 0..nreq {
             let req = rand_request(r, n, &cps);
